@@ -354,7 +354,7 @@ struct CompressedPGMIndex<K, Epsilon, EpsilonRecursive, Floating>::CompressedLev
                     size_t prev_level_size,
                     K last_key)
         : keys(),
-          intercept_offset(*first_intercept) {
+          intercept_offset(std::min<int64_t>(*first_intercept, int64_t(prev_level_size) - 1)) {
         // If true, we need an extra segment to ensure that keys > *(last-1) are approximated to a position == n
         auto need_extra_segment = slopes_table[*std::prev(last_slope)] == 0;
 
